@@ -229,12 +229,13 @@ def keys_to_array(res, env=None):
 # ------------------------------------------------------------------------------------------------ cases
 
 class Case:
-    def __init__(self, stream, label, e, wrt, args, ds, e_real=None, presubst=False, symbolic=(), jacpt=False, note=None, fd=True):
+    def __init__(self, stream, label, e, wrt, args, ds, e_real=None, presubst=False, symbolic=(), jacpt=False, note=None, fd=True, alt_e=None):
         self.stream, self.label = stream, label
         self.e = e                    # the tree Lean differentiates formally
         self.e_real = e if e_real is None else e_real   # the tree the real code differentiated (may contain nodes outside the Lean fragment)
         self.wrt, self.args, self.ds = wrt, args, ds    # ds: [(tag, tree)]
         self.presubst, self.symbolic, self.jacpt, self.note, self.fd = presubst, tuple(symbolic), jacpt, note, fd
+        self.alt_e = alt_e   # an equivalent (simplified) form of e to use when e itself is undefined at the point (0·log(negative) artefacts of un-simplified trees)
 
     def request(self):
         sym = {self.wrt: numpy.asarray(self.args[self.wrt]).shape}
@@ -330,7 +331,7 @@ def derivative_case(c, stream, label, e, wrt, args, second=True, outcome=None, e
                 k4, s2 = safe_simplified(dd)
                 if k4 == 'ok' and s2 is not dd:
                     ds2.append(('simplified', s2))
-                cases.append(Case(stream, label + '/second', d, w2, args, ds2, **kw))
+                cases.append(Case(stream, label + '/second', d, w2, args, ds2, alt_e=(s if k2 == 'ok' and s is not d else None), **kw))
             elif outcome is not None:
                 outcome['second-derivative-%s' % k3] += 1
     return cases
@@ -430,7 +431,20 @@ class Judge:
                 continue
             if a.startswith('bad-request'):
                 raise Infra('C04 driver rejected a request: %s' % a[:300])
-            self.judge(case, json.loads(a))
+            a = json.loads(a)
+            if a.get('error', '').startswith('undefined') and case.alt_e is not None:
+                # the un-simplified first derivative is undefined here (0·log of a negative number); differentiate its simplified form formally instead
+                alt = Case(case.stream, case.label + '[e simplified]', case.alt_e, case.wrt, case.args, case.ds, e_real=case.e_real, presubst=case.presubst, symbolic=case.symbolic, jacpt=case.jacpt, fd=case.fd)
+                try:
+                    b = self.session.ask(alt.request(), limit)
+                except ValueError:
+                    b = None
+                if b is not None and not b.startswith('bad-request'):
+                    self.count(case, 'retried-with-simplified-e')
+                    alt.e_real = case.e_real
+                    self.judge(alt, json.loads(b), lean_e_is_real=False)
+                    continue
+            self.judge(case, a)
 
     # ---- helpers
     def real(self, e, args):
@@ -488,7 +502,7 @@ class Judge:
         self.count(case, 'VIOLATION')
 
     # ---- the verdict for one case
-    def judge(self, case, a):
+    def judge(self, case, a, lean_e_is_real=True):
         c = self.c
         key = (case.stream, case.label, case.wrt, tuple(getattr(d, '__nutils_hash__', id(d)) for _, d in case.ds))
         nontrivial = any(not isinstance(d, ev.Zeros) for _, d in case.ds)
@@ -504,7 +518,7 @@ class Judge:
         if not a['roundtrip']:
             c.broken_no_input('corr:parseKey-roundtrip', 'Poly.parseKey does not invert Poly.key on a value of the evaluator', dict(label=case.label, expr=X.describe(case.e, case.args)))
         # spec-eval correspondence: Lean value of e and of every derivative tree at the point vs the real evaluation
-        if case.e_real is case.e and not case.presubst:
+        if case.e_real is case.e and not case.presubst and lean_e_is_real:
             ke, ve = self.real(case.e, case.args)
             if ke == 'ok':
                 self.spec_eval(case, 'e', case.e, a['e'], ve)
@@ -533,6 +547,10 @@ class Judge:
                 self.count(case, 'equal-at-sample-point:' + tag); self.npoint += 1
                 if tag == 'raw': case.raw_ok = True
                 continue
+            if pt == 'undefined' and tag != 'raw' and 'data' in (a.get('jacpt') or {}) and not case.presubst:
+                # the (simplified) derivative tree is undefined at a point where the formal Jacobian exists
+                self.undefined_where_differentiable(case, tag, d, kd, dv, a)
+                continue
             if pt in ('kink', 'undefined'):
                 self.count(case, 'dropped-' + pt + ':' + tag)
                 continue
@@ -550,6 +568,26 @@ class Judge:
                 continue
             # candidate: confirm on the real code
             self.confirm(case, tag, d, kd, dv, a, chk)
+
+    def undefined_where_differentiable(self, case, tag, d, kd, dv, a):
+        try:
+            Jl = keys_to_array(a['jacpt'])
+        except (KeyError, ValueError, OverflowError, ZeroDivisionError):
+            self.count(case, 'dropped-undefined:' + tag); return
+        if kd == 'ok':
+            # the real evaluation is finite although the spec says undefined: compare with the oracle
+            if rel_close(dv, Jl, 1e-9):
+                self.count(case, 'real-derivative-equals-lean-jacobian-at-point:' + tag); self.nnum += 1
+            else:
+                self.count(case, 'dropped-undefined:' + tag)
+            return
+        v, Jfd = fd_verdict(case.e_real, numpy.zeros(Jl.shape), case.args, case.wrt) if case.fd else ('unreliable', None)
+        if Jfd is None or v == 'unreliable' or not rel_close(Jfd, Jl, 1e-6):
+            self.count(case, 'dropped-undefined(fd does not confirm differentiability):' + tag); return
+        self.count(case, 'derivative-undefined-where-differentiable')
+        cls = sorted({type(n).__name__ for n in shrink.all_nodes(case.e_real)} & {'Determinant', 'Inverse', 'Power', 'Log', 'Orthonormal'}) or [shrink.skeleton(case.e_real)]
+        self.c.failing_input('derivative-undefined-where-differentiable:' + '+'.join(cls), 'the derivative tree (%s) of %s is NaN/undefined at a point where the expression is differentiable (finite differences and the formal Jacobian agree)' % (tag, case.label),
+                             dict(stream=case.stream, label=case.label, wrt=case.wrt, which=tag, expr=X.describe(case.e_real, case.args), pickled=pack(case.e_real, case.args), expected=Jl.tolist(), real_derivative=repr(dv)))
 
     def spec_eval(self, case, what, tree, res, real_value):
         m = X.compare_result(res, real_value)
@@ -1063,6 +1101,60 @@ def stream_custom(c, J, n):
     return cases
 
 
+def stream_defined_where_differentiable(c, J):
+    """directed probe of the clause "at every argument value where the expression is differentiable": polynomial expressions
+    (differentiable everywhere) at points where an intermediate of the derivative rule degenerates (singular matrix for
+    Determinant._derivative = det · inverse)"""
+    stack = lambda rows: ev.stack([ev.stack(r, 0) for r in rows], 0)
+    x = A('x', 3)
+    g = lambda i: ev.Take(x, ev.constant(i))
+    one, zero = ev.constant(1.), ev.constant(0.)
+    probes = [
+        ('Determinant', 'Determinant([[x0,1],[1,x1]]) at a singular point', ev.Determinant(stack([[g(0), one], [one, g(1)]])), dict(x=numpy.array([2., .5, 1.]))),
+        ('Determinant', 'Determinant(diag(x)) at rank 2', ev.Determinant(ev.Diagonalize(x)), dict(x=numpy.array([2., .5, 0.]))),
+        ('Determinant', 'Determinant(x⊗x) at rank 1 (derivative zero)', ev.Determinant(ev.einsum('i,j->ij', x, x)), dict(x=numpy.array([2., .5, 1.]))),
+        ('Product', 'Product(x) at a zero entry', ev.Product(x), dict(x=numpy.array([2., 0., 1.]))),
+        ('Power', 'x² with a computed exponent at a negative base', ev.Power(x, ev.IntToFloat(ev.constant(2)) * ev.ones(x.shape)), dict(x=numpy.array([-2., .5, 1.]))),
+        ('Divide', 'x0·x1/x1 is not a polynomial: control (undefined where not differentiable)', g(0) * g(1) / g(1), dict(x=numpy.array([2., 0., 1.]))),
+    ]
+    n = 0
+    for sigclass, label, e, args in probes:
+        kd, d = safe_derivative(e, find_argument(e, 'x'))
+        if kd != 'ok':
+            J.outcome['probe:derivative-' + kd] += 1; continue
+        ks, ds_ = safe_simplified(d)
+        if ks != 'ok':
+            J.outcome['probe:simplify-' + ks] += 1; continue
+        case = Case('probe', label, e, 'x', args, [('simplified', ds_)], jacpt=True)
+        a = J.session.ask(case.request(), 30)
+        if a is None or a.startswith('bad-request'):
+            J.outcome['probe:no-lean-answer'] += 1; continue
+        a = json.loads(a)
+        c.case(('probe', label))
+        jp = a.get('jacpt') or {}
+        kr, dv = X.real_eval(ds_, args, simplify=True)
+        n += 1
+        if 'data' not in jp:
+            # the expression itself is not differentiable / defined here according to the specification: nothing is demanded
+            J.outcome['probe:not-differentiable-here(%s)' % jp.get('error', a.get('error', '?'))] += 1
+            continue
+        try:
+            Jl = keys_to_array(jp)
+        except Exception:
+            J.outcome['probe:oracle-not-numeric'] += 1; continue
+        if kr == 'ok' and rel_close(dv, Jl, 1e-9):
+            J.outcome['probe:defined-and-equal'] += 1
+            continue
+        v, Jfd = fd_verdict(e, numpy.zeros(Jl.shape), args, 'x')
+        fd_ok = Jfd is not None and v != 'unreliable' and rel_close(Jfd, Jl, 1e-6)
+        J.outcome['probe:derivative-%s-where-differentiable(fd %s)' % (kr, 'confirms' if fd_ok else 'unreliable')] += 1
+        skel = shrink.skeleton(e)
+        c.failing_input('derivative-undefined-where-differentiable:' + sigclass if kr != 'ok' else 'derivative-wrong:' + skel,
+                        'the derivative tree of %s evaluates to %s at a point where the expression is a polynomial (true Jacobian %s)' % (label, 'NaN/inf' if kr == 'nonfinite' else kr, Jl.tolist()),
+                        dict(stream='probe', label=label, wrt='x', expr=X.describe(e, args), pickled=pack(e, args), real_derivative=repr(dv), expected=Jl.tolist(), finite_differences=None if Jfd is None else Jfd.tolist()))
+    return n
+
+
 # ------------------------------------------------------------------------------------------------ (X) search when the table proof breaks
 
 def search_pointwise_failing(c, rows):
@@ -1152,6 +1244,7 @@ def run(c):
         for i in range(0, len(cases), B):
             J.run(cases[i:i+B])
             c.log('judged %d/%d' % (min(i+B, len(cases)), len(cases)))
+        nprobe = stream_defined_where_differentiable(c, J)
     finally:
         J.session.stop()
     c.extra['lean_time_limit_restarts'] = J.session.restarts
